@@ -39,8 +39,16 @@ Why(r) ==
   ELSE IF o.outcome = "error" /\ r.admit_error THEN "ok"
   ELSE "outcome"
 
+(* Known-defect semantics: when a line carries an alternative term `alt` (the query rewritten to the
+   semantics of a recorded known finding), report whether the observation is exactly what that
+   semantics yields, so that the finding's signature is precise and any other deviation of the same
+   query is still a violation. *)
+AltOK(r) == IF "a" \in DOMAIN r THEN FALSE
+            ELSE IF r.alt.k = "none" \/ r.obs.outcome # "rows" THEN FALSE
+            ELSE RowsOK(r.alt, DbOf(r), r.obs.rows)
+
 Report(r, why) ==
-  PrintT(ToJson([mismatch |-> r.id, why |-> why, mode |-> Mode(r.q),
+  PrintT(ToJson([mismatch |-> r.id, why |-> why, mode |-> Mode(r.q), altok |-> AltOK(r),
                  exp |-> IF why = "class" THEN <<ClassQ(r.q, r.dbc, <<>>)>>
                          ELSE IF "a" \in DOMAIN r THEN <<>>
                          ELSE Expected(r.q, DbOf(r))]))
